@@ -222,6 +222,12 @@ def const_val(o):
         return v["v"]
     if k == "bytes":
         return bytes.fromhex(v["hex"])
+    if k == "inttuple":
+        # a promoted tuple of unsigned integers: the right-hand side of `(a, b) == (0, N)`
+        return ("inttuple", tuple(int(x) for x in v["v"]))
+    if k == "optint":
+        # a promoted Option<uN>: the right-hand side of `x.checked_sub(y) == Some(N)`
+        return ("optint", int(v["v"]) if "v" in v else None)
     if k == "optref":
         # a promoted Option<&int>: Some(&v) / None
         return ("Some&", int(v["v"])) if "v" in v else ("None&",)
